@@ -1596,7 +1596,7 @@ func (t *Tree) RenameAuto(internals, tips bool, length int, curid *int, namemap 
 				newname = fmt.Sprintf(fmt.Sprintf("%c%%0%dd", prefix, (length-1)), *curid)
 				if len(newname) != length {
 					return (fmt.Errorf("Id length %d does not allow to generate as much ids: %d (%s)",
-						length, curid, newname))
+						length, *curid, newname))
 				}
 				namemap[n.Name()] = newname
 				*curid++
